@@ -180,7 +180,7 @@ static bool parse_spec(const std::string& t, Spec& s)
     return true;
 }
 
-static unsigned long long g_refused, g_parsed;
+static unsigned long long g_refused, g_parsed, g_after_failure;
 static int g_last_writes;
 static std::string execute(const Spec& s)
 {
@@ -201,15 +201,18 @@ static std::string execute(const Spec& s)
         enum DeviceStatusCode rc;
         DEV(rc = storage_set(dev, &props));
         storage_properties_destroy(&props);
+        if (rc != Device_Ok && ENV.failed_writes) break;
         if (rc != Device_Ok) {
             // tiff-json insists on metadata of at least "{}": a refused configuration writes no file and is not judged
             if (s.kind == BasicDevice_Storage_SideBySideTiffJson && meta.empty()) { ++g_refused; break; }
             verdict = "set-failed|storage_set refused a valid configuration"; break;
         }
         DEV(rc = storage_start(dev));
+        if (rc != Device_Ok && ENV.failed_writes) break; // the injected write error hit start: nothing to judge here (C16 judges how it is reported)
         if (rc != Device_Ok) { verdict = "start-failed|storage_start failed"; break; }
         std::vector<Expect> frames;
         std::vector<uint8_t> packet;
+        bool failed_append = false; int ok_frames = 0, pk = 0, pk_frames = 0;
         for (int i = 0; i < c.n; ++i) {
             Expect e; e.spec = { SHAPES[s.shape][0], SHAPES[s.shape][1], s.type, (uint64_t)i };
             std::vector<uint8_t> f = make_frame(e.spec, ci + 1);
@@ -217,21 +220,44 @@ static std::string execute(const Spec& s)
             size_t img = (size_t)e.spec.w * e.spec.h * type_bytes(e.spec.type);
             e.pixels.assign(v->data, v->data + img); e.hw = v->hardware_frame_id; e.ts_hw = v->timestamps.hardware; e.ts_rt = v->timestamps.acq_thread;
             frames.push_back(e);
-            packet.insert(packet.end(), f.begin(), f.end());
+            packet.insert(packet.end(), f.begin(), f.end()); ++pk_frames;
             if (i == c.n - 1 || (c.group >> i & 1)) {
                 std::vector<uint64_t> al((packet.size() + 7) / 8); memcpy(al.data(), packet.data(), packet.size());
+                int failed_before = ENV.failed_writes;
                 DEV(rc = storage_append(dev, (const struct VideoFrame*)al.data(), (const struct VideoFrame*)((uint8_t*)al.data() + packet.size())));
+                if (ENV.failed_writes > failed_before) {
+                    // the injected write error hit this append: the frames of the earlier, successful appends were appended; of this
+                    // packet the ones written before the failing one may or may not count
+                    failed_append = true; ok_frames = (int)frames.size() - pk_frames; pk = pk_frames;
+                    break;
+                }
                 if (rc != Device_Ok) { verdict = "append-failed|storage_append failed without any injected fault"; break; }
-                packet.clear();
+                packet.clear(); pk_frames = 0;
             }
         }
+        int failed_in_appends = ENV.failed_writes;
         DEV(storage_stop(dev));
         if (!verdict.empty()) break;
+        if (ENV.failed_writes && !failed_append) { h_rm(path); break; }             // the error hit start or stop itself: the file cannot be finalised, nothing to judge
+        if (ENV.failed_writes > failed_in_appends) { h_rm(path); break; }           // (persistent plans) finalisation failed as well
+        if (failed_append && ok_frames < 1) { h_rm(path); break; }                   // no frame was appended: the property speaks about N >= 1
         std::vector<uint8_t> bytes;
         std::string tif = s.kind == BasicDevice_Storage_Tiff ? path : path + "/data.tif";
         if (!h_read_file(tif, bytes)) { verdict = "file-missing|" + tif + " does not exist after stop"; break; }
         ++g_parsed;
-        std::string r = check_tiff(View{ bytes.data(), bytes.size() }, frames, meta, s.kind == BasicDevice_Storage_Tiff);
+        std::string r;
+        if (!failed_append) r = check_tiff(View{ bytes.data(), bytes.size() }, frames, meta, s.kind == BasicDevice_Storage_Tiff);
+        else {
+            // one append failed on a write error and the device was then stopped: the N >= 1 frames appended before it must still
+            // round-trip (the file holds them, plus possibly the frames of the failing packet that were written completely)
+            ++g_after_failure;
+            for (int m = ok_frames; m <= ok_frames + pk - 1; ++m) {
+                std::vector<Expect> pre(frames.begin(), frames.begin() + m);
+                std::string rm = check_tiff(View{ bytes.data(), bytes.size() }, pre, meta, s.kind == BasicDevice_Storage_Tiff);
+                if (rm.empty()) { r.clear(); break; }
+                if (m == ok_frames) r = "after-failed-append:" + rm + " [" + std::to_string(ok_frames) + " frames had been appended successfully before the append that met the write error]";
+            }
+        }
         if (!r.empty()) { verdict = r + " [cycle " + std::to_string(ci) + "]"; break; }
         if (s.kind == BasicDevice_Storage_SideBySideTiffJson && !meta.empty()) {
             std::vector<uint8_t> mj;
@@ -355,6 +381,11 @@ int main(int argc, char** argv)
                                         Spec base = s; execute(base); int W = g_last_writes;
                                         for (int at = 0; at < W + 2; ++at) for (int k = W_SHORT_BY_1; k <= W_ZERO; ++k) { Spec t = s; t.short_at = at; t.short_kind = k; todo.push_back(t); ++short_runs; }
                                     }
+                                    // one failing write (EIO) at every pwrite index: the frames appended before the failing append stay readable
+                                    if (cycles == 1 && meta == 2 && scale == 0 && uri == 0 && (shape == 1 || shape == 3) && (type == 0 || type == 4) && n == 3) {
+                                        Spec base = s; execute(base); int W = g_last_writes;
+                                        for (int at = 0; at < W; ++at) { Spec t = s; t.short_at = at; t.short_kind = W_EIO; todo.push_back(t); ++short_runs; }
+                                    }
                                     for (Spec& t : todo) {
                                         std::string v = execute(t); ++runs; files += t.ncyc;
                                         if (samples.size() < 8 && runs % 997 == 11) samples.push_back(spec_str(t));
@@ -380,7 +411,7 @@ int main(int argc, char** argv)
     h_rmtree(g_scratch);
     double wall = std::chrono::duration<double>(std::chrono::steady_clock::now() - t0).count();
     FILE* f = out.empty() ? stdout : fopen(out.c_str(), "w");
-    fprintf(f, "{\"runs_with_a_short_or_zero_write\":%llu,\"large_files_over_4GiB\":%llu,\"cycles\":%d,\"runs\":%llu,\"configurations_refused_by_the_device\":%llu,\"files_parsed\":%llu,\"exhaustive\":true,\"wall_s\":%.3f,\"samples\":[", short_runs, large, cycles, runs, g_refused, g_parsed, wall);
+    fprintf(f, "{\"files_judged_after_a_failed_append\":%llu,\"runs_with_a_short_or_zero_write\":%llu,\"large_files_over_4GiB\":%llu,\"cycles\":%d,\"runs\":%llu,\"configurations_refused_by_the_device\":%llu,\"files_parsed\":%llu,\"exhaustive\":true,\"wall_s\":%.3f,\"samples\":[", g_after_failure, short_runs, large, cycles, runs, g_refused, g_parsed, wall);
     for (size_t i = 0; i < samples.size(); ++i) fprintf(f, "%s\"%s\"", i ? "," : "", json_esc(samples[i]).c_str());
     fprintf(f, "],\"violations\":[");
     bool first = true;
